@@ -25,6 +25,10 @@ def _alarm(signum, frame):
     raise Timeout()
 
 
+import sys as _sys
+_sys.setrecursionlimit(20000)   # terms of unrolled loops and nested closed forms are deep; comparisons and hashes recurse over them
+
+
 def main(argv=None):
     argv = argv or sys.argv[1:]
     if not argv or argv[0] in ("-h", "--help"):
